@@ -14,21 +14,71 @@ import (
 func (c *Ctx) DecodeFreshTarget(prop string) {
 	rule := "C11.O7 decode.fresh-target"
 	n, inLoop := 0, 0
+	isLib := func(f *ssa.Function) bool {
+		if f == nil || f.Pkg == nil {
+			return false
+		}
+		p := f.Pkg.Pkg.Path()
+		return (p == "encoding/json" || p == "encoding/gob") && (f.Name() == "Unmarshal" || f.Name() == "Decode")
+	}
+	// module decoders: functions that hand one of their parameters (or the receiver) to a library decode, or to another
+	// module decoder, as the target (two levels)
+	decoderParam := map[*ssa.Function]int{}
+	for round := 0; round < 2; round++ {
+		for _, fn := range c.P.ModuleFuncs() {
+			if prog.IsTestish(prog.PkgPathOf(fn)) || fn.Blocks == nil {
+				continue
+			}
+			if _, done := decoderParam[fn]; done {
+				continue
+			}
+			for _, ci := range Calls(fn, func(ci ssa.CallInstruction) bool {
+				f := ci.Common().StaticCallee()
+				_, isDec := decoderParam[f]
+				return isLib(f) || (f != nil && isDec)
+			}) {
+				f := ci.Common().StaticCallee()
+				args := ci.Common().Args
+				k := len(args) - 1
+				if !isLib(f) {
+					k = decoderParam[f]
+				}
+				if k < 0 || k >= len(args) {
+					continue
+				}
+				t := args[k]
+				if mi, ok := t.(*ssa.MakeInterface); ok {
+					t = mi.X
+				}
+				for i, q := range fn.Params {
+					if t == ssa.Value(q) {
+						decoderParam[fn] = i
+					}
+				}
+			}
+		}
+	}
 	for _, fn := range c.P.ModuleFuncs() {
 		if prog.IsTestish(prog.PkgPathOf(fn)) || fn.Blocks == nil {
 			continue
 		}
 		for _, ci := range Calls(fn, func(ci ssa.CallInstruction) bool {
 			f := ci.Common().StaticCallee()
-			if f == nil || f.Pkg == nil {
-				return false
+			if isLib(f) {
+				return true
 			}
-			p := f.Pkg.Pkg.Path()
-			return (p == "encoding/json" || p == "encoding/gob") && (f.Name() == "Unmarshal" || f.Name() == "Decode")
+			_, isDec := decoderParam[f]
+			return f != nil && isDec
 		}) {
 			n++
 			args := ci.Common().Args
 			target := args[len(args)-1]
+			if k, isDec := decoderParam[ci.Common().StaticCallee()]; isDec && !isLib(ci.Common().StaticCallee()) {
+				if k >= len(args) {
+					continue
+				}
+				target = args[k]
+			}
 			if mi, ok := target.(*ssa.MakeInterface); ok {
 				target = mi.X
 			}
@@ -45,6 +95,10 @@ func (c *Ctx) DecodeFreshTarget(prop string) {
 				continue
 			}
 			inLoop++
+			if _, isParam := target.(*ssa.Parameter); isParam {
+				c.R.OK(rule, Fn(fn), c.Pos(ci), "the target is the function's own parameter: judged at its callers")
+				continue
+			}
 			al, ok := target.(*ssa.Alloc)
 			if !ok {
 				c.R.Unknown(rule, Fn(fn), c.Pos(ci), "a decode inside a loop fills an object that is not a local variable: "+an.Term(target))
